@@ -4,7 +4,7 @@ package main
 // address functions (C17). Every summary models a PURE dependency function as an uninterpreted
 // function of its arguments (always sound for a deterministic, side-effect free callee); the few
 // extra facts that are assumed about those functions are listed next to each summary and in
-// /var/tmp/ag_btc/NOTES.md.
+// /verif/notes_ag_btc.md.
 
 import (
 	"fmt"
